@@ -88,6 +88,16 @@ CLAIMED = {
                      "below tolerance, frozen and zero columns, linear scaling, preconditioner-independent limit, T symmetric tridiagonal with Ritz values in the spectrum, "
                      "Gauss quadrature identity at full dimension, agreement with independently computed Lanczos coefficients, raise on NaN / inconsistent limits. Sampled "
                      "in inputs (seeded drivers), exhaustive in the control model."),
+    "C09": dict(engine="E4-loop-models-trace-validation", design="5/C09",
+                technique="TLA+ control model of the Lanczos loop (LOLanczos) checked by TLC for every size / budget / Krylov dimension; executions of lanczos_tridiag for every budget 1..n+2 recorded and validated by TLC against the clauses of C09 (Trace_C09); Lanczos consumers judged with the compression relations",
+                text="(1) spec/LOLanczos.tla + MC_C09.tla: the loop (budget min(max_iter, n), first-step and in-loop breakdown tests, trimming) must end with exactly "
+                     "min(max_iter, n, Krylov dimension) basis vectors for every configuration, and terminate; slipped variants (among them the pinned tree's missing test of "
+                     "the first coupling coefficient, which crashes for a budget of one) must be rejected. (2) Matrices with known eigen-structure (distinct, repeated pairs, rank "
+                     "deficient, c*I, geometric decay, batches mixing full-rank and rank-deficient members) x start vectors (random, eigenvector, few eigenvectors, mixtures) x "
+                     "sizes 2..64 x batch x 1 or 3 start vectors x dtype: every budget 1..n+2 is executed, measured in float64 and validated by TLC (spec/Trace_C09.tla): shapes, "
+                     "finiteness, Q^T Q = I, T symmetric tridiagonal, Q^T A Q = T, A Q - Q T supported in the last column, exactness on the Krylov space, append-only growth of "
+                     "the basis across budgets, no early stop without breakdown evidence, eigendecomposition of T with masked negative Ritz values. (3) root / inverse root / "
+                     "diagonalization by Lanczos on sizes up to 24 with budgets on both sides of n must equal the orthogonal compression of A (A^-1) onto their span."),
     "C10": dict(engine="E4-loop-models-trace-validation", design="5/C10",
                 technique="TLA+ state machine of pivoted Cholesky in exact rational arithmetic (LOPivChol) explored exhaustively by TLC incl. all tie-breaking; library results accepted only as one of the specification's behaviours; preconditioner compared with (A - S) + D",
                 text="spec/LOPivChol.tla runs the loop of functions/_pivoted_cholesky.py on exact rationals (state: residual S = A - L L^T per batch member, pivots, step counter, "
@@ -214,7 +224,7 @@ def main():
             dict(name="E3-history-machines", path="spec/LOSettings.tla spec/LOCache.tla spec/LOPsdChol.tla harness/checks/",
                  serves_properties=sorted(k for k, v in CLAIMED.items() if v["engine"] == "E3-history-machines"),
                  kind_free_text="TLA+ state machines over event histories (ideal + implementation-shaped layers), exhaustive TLC exploration, histories replayed into / traces validated from the library"),
-            dict(name="E4-loop-models-trace-validation", path="spec/LOCG.tla spec/MC_C08.tla spec/Trace_C08.tla spec/LOPivChol.tla spec/MC_C10.tla harness/checks/",
+            dict(name="E4-loop-models-trace-validation", path="spec/LOCG.tla spec/MC_C08.tla spec/Trace_C08.tla spec/LOLanczos.tla spec/MC_C09.tla spec/Trace_C09.tla spec/LOPivChol.tla spec/MC_C10.tla harness/checks/",
                  serves_properties=sorted(k for k, v in CLAIMED.items() if v["engine"] == "E4-loop-models-trace-validation"),
                  kind_free_text="TLA+ state machines of the iterative solvers; exhaustive TLC exploration of the models; traces recorded from the real solvers validated by TLC / results accepted only as model behaviours"),
             dict(name="E2-exact-linalg-replay", path="spec/LORational.tla spec/MC_E2.tla harness/e2.py",
